@@ -374,6 +374,19 @@ def inject(repo, mapping):
             shutil.copy(s, t)
 
 
+def ensure_instr():
+    b = os.path.join(ROOT, "bin", "instr")
+    src = os.path.join(ROOT, "tools", "instr")
+    if os.path.exists(b) and os.path.getmtime(b) >= os.path.getmtime(os.path.join(src, "main.go")):
+        return b
+    e = dict(os.environ)
+    e.update(GOENV)
+    p = subprocess.run(["go", "build", "-o", b, "."], cwd=src, env=e, capture_output=True, text=True)
+    if p.returncode != 0:
+        raise Inconclusive("cannot build tools/instr: " + p.stderr)
+    return b
+
+
 def go_test(repo, pkg, run, *, env=None, go="go1.26.8", tags="verif", timeout=900, synctest=False,
             extra=()):
     e = dict(os.environ)
